@@ -297,3 +297,65 @@ def view(spec):
 
 
 PARTS = {"totalforce": {"strategy": spec_tf, "check": check_tf, "examples": {"quick": 900, "thorough": 15000}, "sample": view}}
+
+
+# ------------------------------------------------------------------------------------------------------------
+# histories in the late convention: the applied force that is subtracted (or included) is the one of the step at which
+# the forces acted, also when a bias switches off and on again
+
+@st.composite
+def spec_hist(draw, tier):
+    from lib import cvz
+    T = draw(st.integers(4, 12))
+    # walls at 1 and 2: values inside (no force), below and above
+    xs = [draw(st.sampled_from([0.25, 0.5, 0.75, 1.25, 1.5, 1.75, 2.25, 2.5, 3.0])) for _ in range(T)]
+    return {"xs": xs, "fs": [rnd(draw(fl(-4, 4)), 2) for _ in range(T)], "sub": draw(st.booleans()), "k": rnd(draw(fl(0.5, 8)), 2),
+            "tsf": 1, "second": draw(st.booleans())}   # time-step factors are C08's subject
+
+
+def check_hist(spec, ctx):
+    from lib import cvz
+    nat = 2
+    extra = {"outputTotalForce": "on", "outputAppliedForce": "on"}
+    if spec["sub"]:
+        extra["subtractAppliedForce"] = "on"
+    cfg = cvz.zvar("z0", 1, -4, 8, 0.5, extra=extra)
+    cfg += "\nharmonicWalls {\n  name w\n  colvars z0\n  lowerWalls 1.0\n  upperWalls 2.0\n  forceConstant %s\n%s}\n" % (
+        fmt(spec["k"]), "  timeStepFactor %d\n" % spec["tsf"] if spec["tsf"] != 1 else "")
+    if spec["second"]:
+        cfg += "linear {\n  name l\n  colvars z0\n  centers 0\n  forceConstant 0.25\n}\n"
+    L = cvz.header(nat, 2) + ["config <<END\n%s\nEND" % cfg]
+    for x, f in zip(spec["xs"], spec["fs"]):
+        L += [cvz.pos_line_z([x], nat), cvz.fsys_line_z([f], nat), "step"]
+    case = "\n".join(L) + "\n"
+    r = run_case(case)
+    if r.crashed or r.of("config")[0]["rc"] != 0:
+        return Outcome(False, msg="crash/rejected %s %s" % (r.stderr[-300:], r.of("config")[:1]), sig="gen_invalid", case_text=case)
+    steps = r.of("step")
+    nz = 0
+    zero_after = 0
+    for t in range(1, len(steps)):
+        if steps[t]["errbits"]:
+            return Outcome(False, msg="step error %s" % steps[t]["errs"], sig="step_error", case_text=case)
+        if not steps[t]["cv"][0]["active"]:
+            continue      # only a sleeping bias (timeStepFactor) uses the variable at this step: it is not computed
+        fa_prev = steps[t - 1]["cv"][0]["f"][0]
+        ft = steps[t]["cv"][0]["ft"][0]
+        exp = spec["fs"][t - 1] + (0.0 if spec["sub"] else fa_prev)
+        if fa_prev != 0.0:
+            nz += 1
+        elif nz:
+            zero_after += 1
+        if spec["sub"] and spec["fs"][t - 1] + fa_prev == 0.0:
+            continue      # a total force of exactly zero is taken by the code as "not available" and nothing is subtracted from it
+        if abs(ft - exp) > 1e-10 * max(1.0, abs(exp)):
+            return Outcome(False, msg="late convention%s, step %d: reported total force %r; the forces that acted at step %d were system %r and applied %r, "
+                           "so %r is expected" % (" with subtractAppliedForce" if spec["sub"] else "", steps[t]["it"], ft, steps[t - 1]["it"],
+                                                  spec["fs"][t - 1], fa_prev, exp), sig="history_subtract" if spec["sub"] else "history_sum", case_text=case)
+    return Outcome(True, nontrivial=nz >= 1 and zero_after >= 1, cls=("hist", "sub" if spec["sub"] else "nosub", "tsf%d" % spec["tsf"]),
+                   strata=["hist", "hist:" + ("sub" if spec["sub"] else "nosub")] + (["hist:switch_off"] if zero_after else []), case_text=case)
+
+
+PARTS["history"] = {"strategy": spec_hist, "check": check_hist, "examples": {"quick": 1200, "thorough": 20000},
+                    "sample": lambda s: s}
+REQUIRED_STRATA = {"all": ["history:hist:sub", "history:hist:nosub", "history:hist:switch_off", "totalforce:type:eigenvector"]}
